@@ -187,10 +187,42 @@ pub fn case(rng: &mut Rng, out: &mut Out, bound: usize) {
         .map(|w| ints(&w.iter().map(|s| terms.iter().position(|x| x == s).unwrap_or(999)).collect::<Vec<_>>()))
         .collect();
     out.case(
-        tagged("optlang", vec![tagged("rules", rules_sx), int(idx(&s1).unwrap()), int(terms.len()), int(bound)]),
+        tagged("optlang", vec![tagged("rules", rules_sx.clone()), int(idx(&s1).unwrap()), int(terms.len()), int(bound)]),
         tagged("ok", after_lang),
         l1.len() > 1,
     );
+    // the optimiser itself: rules of every symbol after optimisation, symbol by symbol (by name)
+    if s2 == s1 {
+        let after_rules: Vec<Sx> = names
+            .iter()
+            .map(|n| {
+                list(
+                    r2.get(n)
+                        .map(|alts| {
+                            alts.iter()
+                                .map(|alt| {
+                                    list(
+                                        alt.iter()
+                                            .map(|s| match idx(s) {
+                                                Some(i) => tagged("n", vec![int(i)]),
+                                                None => tagged("t", vec![int(terms.iter().position(|x| x == s).unwrap_or(999))]),
+                                            })
+                                            .collect(),
+                                    )
+                                })
+                                .collect()
+                        })
+                        .unwrap_or_default(),
+                )
+            })
+            .collect();
+        out.case(
+            tagged("optimize", vec![tagged("rules", rules_sx), int(idx(&s1).unwrap()), int(terms.len())]),
+            tagged("ok", after_rules),
+            true,
+        );
+        out.count("optimizer_cases", 1);
+    }
 }
 
 pub fn run(rng: &mut Rng, out: &mut Out, tier: &str) {
